@@ -397,6 +397,45 @@ def check_model(spec, res, ctx, only=None):
                         % (label, dev, n_, np.nanmax(np.abs(a - b))), input=[list(x) for x in comp3], mode=dev, input_kind="options")
                     break
 
+    # (c4) one model, several scenario columns in the data: num_variants larger than the model's own number of
+    #      variants; column k must be the simulation of scenario k
+    for dev in (True, False):
+        groups = [tuple(S[0::3]), tuple(S[1::3]), tuple(S[2::3])]
+        sims = [guard("data_variants", g, dev, lambda g=g: run(g, dev)) for g in groups]
+        if any(x is None for x in sims):
+            continue
+
+        def three_columns():
+            L_ = sims[0].L
+            fu = (START - L_, START + N - 1)
+            db3 = ir.Databox.steady(m, sims[0].span, deviation=dev)
+            for n_ in sims[0].names():
+                cols = []
+                for sm in sims:
+                    a = sm.db_in[n_].get_data_from_until(fu)[:, 0].astype(float) if n_ in sm.db_in else np.zeros(N + L_)
+                    cols.append(np.nan_to_num(a) if n_[0] in "ewa" else a)
+                db3[n_] = ir.Series(start=START - L_, values=np.column_stack(cols))
+            res.ev()
+            with contextlib.redirect_stdout(io.StringIO()):
+                return m.simulate(db3, sims[0].span, method="first_order", deviation=dev, num_variants=3)
+        out3 = guard("data_variants", groups[0], dev, three_columns)
+        if out3 is None:
+            continue
+        res.nt((name, "data_variants", dev))
+        res.count("data_variant_runs")
+        done = False
+        for n_ in sims[0].names():
+            if n_[0] not in "vo" or done:
+                continue
+            a3 = out3[n_].get_data_from_until((START, START + N - 1)) if n_ in out3 else None
+            for k, sm in enumerate(sims):
+                b = sm.out[n_].get_data_from_until((START, START + N - 1))[:, 0]
+                if a3 is None or a3.shape[1] != 3 or not np.allclose(a3[:, k], b, rtol=1e-10, atol=1e-12, equal_nan=True):
+                    bad("data_variants", "dev=%s %s: column %d of a num_variants=3 run on a single-variant model differs from the simulation of scenario %d"
+                        % (dev, n_, k, k), input=[list(x) for x in groups[k]], mode=dev, input_kind="data_variants")
+                    done = True
+                    break
+
     # (d) non-explosive: composite input over a long horizon, deviation mode
     comp = tuple(S)
     long_ = guard("long", comp, True, lambda: run(comp, True, n=T_SHOCK + H_LONG))
@@ -522,7 +561,8 @@ def run(ctx, total, info):
                       "distinct_cases": (len(total.nontrivial), 8000),
                       "unit_root_models": (c.get("models_with_unit_roots", 0), 5), "variant_runs": (c.get("variant_runs", 0), 300),
                       "split_frame_runs": (c.get("split_frame_runs", 0), 500),
-                      "option_runs": (c.get("option_runs", 0), 1500)}
+                      "option_runs": (c.get("option_runs", 0), 1500),
+                      "data_variant_runs": (c.get("data_variant_runs", 0), 500)}
 
 
 def replay(case):
